@@ -183,7 +183,8 @@ def compare(obs, c):
     else:
         if obs["cp"]["unpacking"]:
             mm.append("C12.phase")
-        if obs.get("generic_p") and obs["cp"]["err"] != p["err"]:
+        exp = p["err"] if obs.get("generic_p") else (p["errv"] if obs.get("vec", True) else p["errn"])
+        if obs["cp"]["err"] != exp:
             mm.append("conf_perr")
     if "escape" in obs["cp"]:
         mm.append("C12.pack_raises_only_PacketError")
@@ -250,6 +251,7 @@ def _wrun(chunk):
                     mod = _W["scratch"].load(d["prog"], gen)
                     obs = observe_case(mod, d, c, how)
                     obs["generic_p"] = gen is not None and not gen.get("generate_for_pack", True)
+                    obs["vec"] = True if gen is None else bool(gen.get("vectorize", True))
                     mm = compare(obs, c)
                 except Exception:
                     out.append({"clauses": ["harness"], "detail": traceback.format_exc()[-1500:], "obs": None, "gen": gen, "d": c["d"]})
